@@ -217,7 +217,7 @@ func script(seed int64, idx int) {
 				base := s.CountLocked("getTransactionReceipt")
 				s.Faults["getTransactionReceipt"] = map[int]string{}
 				for i := 1; i <= k; i++ {
-					s.Faults["getTransactionReceipt"][base+i] = "error"
+					s.Faults["getTransactionReceipt"][base+i] = faultWording(rng)
 				}
 				_, nb = s.ReplaceBlock(tx.Block.Number, true)
 			})
@@ -290,7 +290,34 @@ func script(seed int64, idx int) {
 				sim.Mutate("advance", func(s *evmsim.Sim) { s.AdvanceHead(s.Head + 1) })
 				h.Quiesce(2, 20*time.Second)
 			}
-		case x == 9 && rng.Intn(2) == 0: // mined but not yet at the depth the watcher reads (e.g. not finalized): re-observed right away
+		case x == 13 && rng.Intn(2) == 0: // one transaction, two messages with consistency levels 1 and 200; re-observed while the head is between the two depths
+			var tx *evmsim.Tx
+			var blk *evmsim.Block
+			sim.Mutate("mine-two-levels", func(s *evmsim.Sim) {
+				var hb [32]byte
+				rng.Read(hb[:])
+				tx = &evmsim.Tx{Hash: ethcommon.Hash(hb), Status: 1, Note: "core"}
+				tx.Logs = []*evmsim.LogSpec{mkLog("core", 1), mkLog("core", 200)}
+				if rng.Intn(2) == 0 {
+					tx.Logs[0], tx.Logs[1] = tx.Logs[1], tx.Logs[0]
+				}
+				blk = s.Include(tx, s.Head+1)
+				s.AdvanceHead(blk.Number + 20 + uint64(rng.Intn(100)))
+			})
+			txs = append(txs, tx)
+			exp[tx.Hash] = &expectation{tx: tx, log: tx.Logs[0], block: blk, note: fmt.Sprintf("first of two messages, cl=%d", tx.Logs[0].CL)}
+			sib[tx.Hash] = &expectation{tx: tx, log: tx.Logs[1], block: blk, note: fmt.Sprintf("second of two messages, cl=%d", tx.Logs[1].CL)}
+			tr(fmt.Sprintf("mine tx=%x with two messages (cl %d and %d) in block %d; head between the two depths; reobserve", tx.Hash[:4], tx.Logs[0].CL, tx.Logs[1].CL, blk.Number))
+			vlib.CCount("transactions_with_two_messages", 1)
+			vlib.CCount("txs_core", 1)
+			h.Quiesce(3, 20*time.Second)
+			if !h.Reobserve(tx.Hash, 25*time.Second) {
+				vlib.CFinding("reobserve:request-not-handled-within-watchdog", map[string]interface{}{"script": desc, "trace": trace})
+				return
+			}
+			vlib.CCount("reobservation_requests", 1)
+			vlib.CCount("reobserved_between_two_depths", 1)
+		case x == 9: // mined but not yet at the depth the watcher reads (e.g. not finalized): re-observed right away
 			ahead := uint64(1 + rng.Intn(5))
 			cl := cls[rng.Intn(len(cls))]
 			var tx *evmsim.Tx
@@ -300,6 +327,16 @@ func script(seed int64, idx int) {
 				rng.Read(hb[:])
 				tx = &evmsim.Tx{Hash: ethcommon.Hash(hb), Status: 1, Note: "core", Logs: []*evmsim.LogSpec{mkLog("core", cl)}}
 				blk = s.Include(tx, s.Head+ahead) // the served head stays behind
+				if rng.Intn(3) != 0 { // one head poll (seldom two) fails the way a node does that has no checkpoint at hand
+					base := s.CountLocked("getBlockByNumber")
+					if s.Faults["getBlockByNumber"] == nil {
+						s.Faults["getBlockByNumber"] = map[int]string{}
+					}
+					for i := 1; i <= 1+rng.Intn(5)/4; i++ {
+						s.Faults["getBlockByNumber"][base+i] = "block-not-found"
+					}
+					vlib.CCount("head_polls_failing_with_block_not_found", 1)
+				}
 			})
 			txs = append(txs, tx)
 			exp[tx.Hash] = &expectation{tx: tx, log: tx.Logs[0], block: blk, note: fmt.Sprintf("cl=%d, mined %d blocks ahead of the served head", cl, ahead)}
@@ -333,7 +370,7 @@ func script(seed int64, idx int) {
 				base := sim.CountLocked("getTransactionReceipt")
 				sim.Faults["getTransactionReceipt"] = map[int]string{}
 				for i := 1; i <= k; i++ {
-					sim.Faults["getTransactionReceipt"][base+i] = "error"
+					sim.Faults["getTransactionReceipt"][base+i] = faultWording(rng)
 				}
 			})
 			txs = append(txs, tx)
@@ -500,4 +537,9 @@ func main() {
 		"safety is judged against what the simulator actually answered before the message arrived (highest head served, last receipt answer for the transaction)",
 		"the exactly-once oracle is applied only in scripts without injected RPC errors or watcher restarts")
 	r.Finish("evaluations", "scripts_distinct", "scripted histories in both confirmation modes (Ethereum/finalized/no extra confirmations, BSC/latest/consistency-level confirmations): transactions with core logs, logs of another address with the same topic, other topics, failed receipts; head jumps of {1,2,31,59,60,61,200,10000} past the required depth or short of it; stalls; one-block reorgs that move or drop the transaction; re-observation requests at every stage; RPC errors on every method; distinct non-trivial = distinct script traces", 20)
+}
+
+// faultWording picks how a transient JSON-RPC failure is worded.
+func faultWording(rng *rand.Rand) string {
+	return []string{"error", "error", "header-not-found", "block-not-found", "missing-trie-node"}[rng.Intn(5)]
 }
